@@ -16,7 +16,8 @@ import (
 
 func init() {
 	register(&Property{
-		ID: "C15",
+		ID:    "C15",
+		Yield: true,
 		Rule: "events (well-formed lines with and without tags, 0..15 arguments) are sent to a verb with 1..6 foreground and 0..6 background harness handlers; every invocation first compares its line with the " +
 			"expected parse, records the addresses of its Args backing array and Tags map, scribbles over everything (every Args element, appended elements, every tag, new tags, scalar fields), meets the " +
 			"other invocations of the event at a barrier and then checks that its own line carries only its own marks; addresses must be pairwise distinct; the race detector watches the handlers' writes. " +
